@@ -255,6 +255,7 @@ type loopInfo struct {
 	spec     *LoopSpec
 	text     string
 	rangeIdx *ssa.Alloc
+	idxCell  *ssa.Alloc // counter of a canonical index loop (for i := ..; i < n; i++): rangeindex == i - 1
 	iters    []*ssa.Range
 }
 
@@ -968,6 +969,9 @@ func (s *Session) analyzeLoops() {
 				}
 			}
 		}
+		if li.rangeIdx == nil {
+			li.idxCell = indexLoopCounter(h, li.blocks)
+		}
 	}
 	if s.con != nil {
 		// A loop clause names its loop by ordinal and by header text. Binding: the loop with that ordinal
@@ -1191,6 +1195,9 @@ func (s *Session) modOfCall(c *ssa.CallCommon, li *loopInfo, cells map[*ssa.Allo
 			s.callsiteGhostKeys(pkg+"."+rel, li)
 		}
 	}
+	if con != nil && con.Flags["inline"] && callee != nil && callee.Blocks != nil {
+		con = nil // inlined at the call: what the loop may modify is read off the body below
+	}
 	if con != nil {
 		if con.ModAll || con.Flags["havocall"] {
 			li.modAll = true
@@ -1275,7 +1282,7 @@ func (s *Session) canInline(fn *ssa.Function) bool {
 	if fn.Blocks == nil || fn.Pkg == nil {
 		return false
 	}
-	if pkg, rel := s.P.qualName(fn); s.P.contractOf(pkg, rel) != nil {
+	if pkg, rel := s.P.qualName(fn); s.P.contractOf(pkg, rel) != nil && !s.P.contractOf(pkg, rel).Flags["inline"] {
 		return false
 	}
 	n := 0
@@ -1301,4 +1308,57 @@ func (s *Session) canInline(fn *ssa.Function) bool {
 		return true // closures invoked in place (defer func(){...}())
 	}
 	return n <= 90 && strings.HasPrefix(fn.Pkg.Pkg.Path(), modPath)
+}
+
+// indexLoopCounter recognises the canonical index loop `for i := e; i < n; i++ { ... }`: the head
+// compares a local counter with `<`, and the only store to that counter inside the loop adds 1 to it.
+// Such a loop is the hand-written form of `for i := range xs`: contracts may speak about it with
+// `rangeindex` (= i - 1, the index of the last completed iteration), and `0 <= i` is a checked
+// automatic invariant when the counter starts non-negative.
+func indexLoopCounter(head *ssa.BasicBlock, blocks map[*ssa.BasicBlock]bool) *ssa.Alloc {
+	var iff *ssa.If
+	if n := len(head.Instrs); n > 0 {
+		iff, _ = head.Instrs[n-1].(*ssa.If)
+	}
+	if iff == nil {
+		return nil
+	}
+	cmp, ok := iff.Cond.(*ssa.BinOp)
+	if !ok || cmp.Op != token.LSS {
+		return nil
+	}
+	ld, ok := cmp.X.(*ssa.UnOp)
+	if !ok || ld.Op != token.MUL {
+		return nil
+	}
+	a, ok := ld.X.(*ssa.Alloc)
+	if !ok {
+		return nil
+	}
+	if bt, ok := a.Type().Underlying().(*types.Pointer).Elem().Underlying().(*types.Basic); !ok || bt.Kind() != types.Int {
+		return nil
+	}
+	incs := 0
+	for b := range blocks {
+		for _, in := range b.Instrs {
+			st, ok := in.(*ssa.Store)
+			if !ok || st.Addr != a {
+				continue
+			}
+			add, ok := st.Val.(*ssa.BinOp)
+			if !ok || add.Op != token.ADD {
+				return nil
+			}
+			l, ok1 := add.X.(*ssa.UnOp)
+			c, ok2 := add.Y.(*ssa.Const)
+			if !ok1 || !ok2 || l.X != a || c.Value == nil || c.Value.ExactString() != "1" {
+				return nil
+			}
+			incs++
+		}
+	}
+	if incs != 1 {
+		return nil
+	}
+	return a
 }
